@@ -60,7 +60,14 @@ def main():
         def log_prior_unit_hypercube(self, x):
             return self.log_prior(self.from_unit_hypercube(x)) + np.log(64.0)
 
-    model = {"uniform": G, "constrained": Constrained, "gaussprior": GaussPrior}[cfg.get("model", "uniform")]()
+    class NoCheck(G):
+        """the constant density of the uniform prior, NOT -inf outside the bounds: nothing downstream hides a sample that
+        left the unit hypercube (verify_model accepts such a prior)"""
+
+        def log_prior(self, x):
+            return np.zeros(x.size) - np.log(64.0)
+
+    model = {"uniform": G, "constrained": Constrained, "gaussprior": GaussPrior, "nocheck": NoCheck}[cfg.get("model", "uniform")]()
     snaps = []
 
     def reeval(ns, s):
